@@ -553,6 +553,15 @@ outer:
 	err := saveSnapshots(newSnapshotFilename, newSnapshots)
 	if err != nil {
 		log.Printf("saveSnapshots(%q) failed: %v", newSnapshotFilename, err)
+		// The snapshot file written by the previous import describes the state
+		// before this import. An import of older packets invalidates snapshots,
+		// so without a new file the old one must not be what the next start
+		// loads either (nor a partly written new one).
+		os.Remove(newSnapshotFilename)
+		if b.snapshotFilename != "" {
+			os.Remove(filepath.Join(b.snapshotDir, b.snapshotFilename))
+			b.snapshotFilename = ""
+		}
 	} else {
 		if b.snapshotFilename != "" {
 			os.Remove(filepath.Join(b.snapshotDir, b.snapshotFilename))
